@@ -70,6 +70,11 @@ add("C20",
     "Trusts the protocol state machine in sim/sim/prop_c20.go; after a cancellation the observer may still learn that the next trial started (accepted as a prefix of the ideal sequence).",
     TECH + "; oracle = protocol state machine over the recorded event history; single-fault sweep per shape", "DESIGN.md 5.20", category="fault_enumeration")
 
-for p in ["C15","C17"]:
+add("C15",
+    "Fault enumeration over the simulated disk: objects of simulated worlds and simulated experiments (evolved float64 weights plus extreme finite values, disabled / recurrent genes, nil traits, activation swarm, modules) are written and read back through in-memory readers/writers. Clean configuration: every legal reader fragmentation (1-byte, short, data together with EOF) must read back equal. Fault configurations, kept separate: the writer fails at byte k / the reader fails after k bytes; the call must return an error, a nil error is an acknowledgement and then the result must be equal. A share of the runs sweeps k over every byte of small objects and around every 4096-byte buffer boundary of large ones.",
+    "Trusts the canonical genome dump (floats as bit patterns) and the experiment snapshot in sim/sim/prop_c15.go; weights, parameters and fitness are finite; generation records carry a champion; Trial.Duration and the champion's species are not part of the saved form; nothing is demanded of reads of torn data whose write reported the error.",
+    TECH + "; oracle = bit-exact canonical comparison after each round trip; write/read error acknowledgement rule under injected device faults", "DESIGN.md 5.15", category="fault_enumeration")
+
+for p in ["C17"]:
     if p not in CHECKS:
         pending(p)
